@@ -199,3 +199,93 @@ def strongest_sign(m, M):
     if M <= 0:
         return 'non-positive'
     return 'mixed'
+
+
+# ---------------------------------------------------------------------------
+# discovery (C07): the record discover_field_constraints must return
+# ---------------------------------------------------------------------------
+# K is the mapping kind -> constraint of the returned FieldConstraints.
+# Each clause is one sentence of C07.
+
+def is_numeric_ttype(t):
+    return t in ('bool', 'int', 'real')
+
+
+def disc_type(col, K):
+    return 'type' in K and K['type'].value == col.ttype
+
+
+def disc_max_nulls(col, K):
+    # the null count when that is 0 or 1, otherwise absent; nothing for no data
+    if col.N > 0 and col.n0 < 2:
+        return 'max_nulls' in K and K['max_nulls'].value == col.n0
+    return 'max_nulls' not in K
+
+
+def disc_min(col, K):
+    # the smallest non-null value (non-string fields), attained
+    if col.ttype != 'string' and col.nn > 0:
+        return ('min' in K and forall_nn(col, lambda x: x >= K['min'].value)
+                and exists_nn(col, lambda x: x == K['min'].value)
+                and K['min'].precision is None)
+    return 'min' not in K
+
+
+def disc_max(col, K):
+    if col.ttype != 'string' and col.nn > 0:
+        return ('max' in K and forall_nn(col, lambda x: x <= K['max'].value)
+                and exists_nn(col, lambda x: x == K['max'].value)
+                and K['max'].precision is None)
+    return 'max' not in K
+
+
+def disc_min_length(col, K):
+    if col.ttype == 'string' and col.nn > 0:
+        return ('min_length' in K
+                and forall_nn(col, lambda x: len(x) >= K['min_length'].value)
+                and exists_nn(col, lambda x: len(x) == K['min_length'].value))
+    return 'min_length' not in K
+
+
+def disc_max_length(col, K):
+    if col.ttype == 'string' and col.nn > 0:
+        return ('max_length' in K
+                and forall_nn(col, lambda x: len(x) <= K['max_length'].value)
+                and exists_nn(col, lambda x: len(x) == K['max_length'].value))
+    return 'max_length' not in K
+
+
+def disc_sign(col, K):
+    # the strongest sign class all values share (numeric fields with data)
+    if is_numeric_ttype(col.ttype) and col.nn > 0:
+        if 'min' not in K or 'max' not in K:
+            return False
+        s = strongest_sign(K['min'].value, K['max'].value)
+        if s == 'mixed':
+            return 'sign' not in K
+        return 'sign' in K and K['sign'].value == s
+    return 'sign' not in K
+
+
+def disc_no_duplicates(col, K):
+    # present exactly when a non-real field has more than one non-null value
+    # and all are distinct
+    if col.ttype != 'real' and col.nn > 1 and distinct_nn(col):
+        return 'no_duplicates' in K and K['no_duplicates'].value is True
+    return 'no_duplicates' not in K
+
+
+def disc_allowed_values(col, K, max_categories):
+    # exactly the set of distinct non-null strings when there are at most twenty
+    if col.ttype == 'string' and col.nunique >= 1 and col.nunique <= max_categories:
+        return ('allowed_values' in K
+                and forall_nn(col, lambda x: x in K['allowed_values'].value)
+                and members_are_values(K['allowed_values'].value, col)
+                and len(K['allowed_values'].value) == col.nunique)
+    return 'allowed_values' not in K
+
+
+def disc_rex(col, K, inc_rex):
+    if col.ttype == 'string' and inc_rex:
+        return 'rex' in K and forall_nn(col, lambda x: rex_match(K['rex'].value, x))
+    return 'rex' not in K
